@@ -91,8 +91,8 @@ class Cell:
         return None
 
 
-LITERAL_IDS = ['SRV1;FOLDER;100', 'SRV2;FOLDER;100', 'None', '100', 'A,100', 'B,100', '0', 'storyID', 'x' * 120, ' a b ', 'False',
-               'a.b:100', 'c.b:100', 'nan', '-1', 'item', '\u00e9\u4e2d\U0001F600', '1e3', 'roCreate', '..', '*', "it's", 'p', '100;',
+LITERAL_IDS = ['SRV1;FOLDER;100', 'SRV2;FOLDER;100', '\u00e9\u4e2d\U0001F600', 'None', '100', 'A,100', 'B,100', '0', 'storyID', 'x' * 120, ' a b ', 'False',
+               'a.b:100', 'c.b:100', 'nan', '-1', 'item', '1e3', 'roCreate', '..', '*', "it's", 'p', '100;',
                ';100', 'a/100', 'b/100']
 
 
